@@ -149,3 +149,23 @@ Proof.
   - apply deframe_serial; exact Hs.
   - rewrite <- app_assoc. apply deframe_tcp; assumption.
 Qed.
+
+(* the length-prefix decoder that forwards to a sink (C13): the framed octets, exactly, reach the sink *)
+Theorem lenp_d2s_var oct payload r calls got kc : N.of_nat (length payload) < 2 ^ 64 ->
+  exists calls' kc',
+    lenp_decode_source_to_sink LVar (plain_src oct (vi_encode (N.of_nat (length payload)) ++ payload ++ r) calls) (plain_snk false got kc)
+    = Some (DOk (N.of_nat (length payload)), plain_src oct r calls', plain_snk false (got ++ payload) kc').
+Proof.
+  intros Hn. unfold lenp_decode_source_to_sink, decode_prefix, vi_from_source.
+  set (n := N.of_nat (length payload)) in *.
+  pose proof (decode_list_roundtrip n (payload ++ r) 10 Hn ltac:(lia)) as D.
+  pose proof (from_source_list 10 oct (vi_encode n ++ payload ++ r) calls 0 0) as F.
+  change (N.to_nat (vk_max KU64)) with 10%nat.
+  destruct (from_source_state 10 oct _ calls 0 0 _ _ D) as [c' S].
+  unfold plain_src in F, S |- *.
+  destruct (vi_from_source_loop 10 _ 0 0) as [res s1] eqn:E. cbn [fst snd] in F, S.
+  rewrite D in F. cbn [sres_of] in F. subst res s1.
+  rewrite N.sub_0_r, <- encode_length, Nat2N.id, skipn_app_len by reflexivity.
+  destruct (sts_n_plain oct payload r c' got kc) as (c2 & k2 & E2).
+  unfold plain_src, plain_snk in *. subst n. rewrite E2. eauto.
+Qed.
